@@ -5,13 +5,46 @@
 package main
 
 import (
+	"bytes"
+	"crypto/x509"
+	"fmt"
+	"sort"
+
+	"github.com/scionproto/scion/pkg/scrypto/cppki"
+
 	"verifharness/vlib"
 )
+
+// checkNames: the subject/issuer facts are "names up to cppki.equalName"; on the pool (all names
+// produced by the same encoder) that equivalence must be equality of the full distinguished
+// name, i.e. of the DER subject — in particular it must see the ISD-AS attribute.
+func (w *world) checkNames(e *vlib.Env) {
+	var all []*x509.Certificate
+	for c := range w.keys {
+		all = append(all, c)
+	}
+	sort.Slice(all, func(i, j int) bool { return all[i].SerialNumber.Cmp(all[j].SerialNumber) < 0 })
+	for i, a := range all {
+		for _, b := range all[i+1:] {
+			eq, raw := cppki.VerifEqualName(a.Subject, b.Subject), bytes.Equal(a.RawSubject, b.RawSubject)
+			e.Case(fmt.Sprintf("name %v %v", a.SerialNumber, b.SerialNumber), fmt.Sprintf("name-eq/%v", raw), !raw)
+			if eq != raw {
+				e.Violate(e.Prop+"/equal-name-vs-distinguished-name",
+					fmt.Sprintf("cppki.equalName=%v for subjects %q / %q whose DER encodings equal=%v", eq,
+						a.Subject.String(), b.Subject.String(), raw),
+					map[string]any{"a": a.Subject.String(), "b": b.Subject.String(), "a_ia": iaOf(a), "b_ia": iaOf(b)})
+			}
+		}
+	}
+}
 
 func main() {
 	e := vlib.Init()
 	r := vlib.NewRand(uint64(e.Seed))
 	w := newWorld(r)
+	if e.Prop == "C32" { // C33 only demands "valid only if": a coarser name equality over-rejects
+		w.checkNames(e)
+	}
 	switch e.Prop {
 	case "C32":
 		runC32(e, w)
